@@ -174,6 +174,12 @@ func c17Keys() []c17Key {
 		c17Key{Name: "foreign-ed25519-pointer", Pub: &edPub, Family: "none"},
 		c17Key{Name: "foreign-ecdh-x25519", Pub: xk.PublicKey(), Family: "none"},
 		c17Key{Name: "foreign-bytes", Pub: []byte(edPub), Family: "none"},
+		// key-agreement keys on the NIST curves: same points, not signature keys
+		c17Key{Name: "foreign-ecdh-p256", Pub: func() crypto.PublicKey { k, _ := good.PublicKey.ECDH(); return k }(), Family: "none"},
+		c17Key{Name: "foreign-ecdh-p384", Pub: func() crypto.PublicKey { k, _ := ecKeyOn(elliptic.P384(), "c17-ecdh-384").PublicKey.ECDH(); return k }(), Family: "none"},
+		c17Key{Name: "foreign-ecdh-p521", Pub: func() crypto.PublicKey { k, _ := ecKeyOn(elliptic.P521(), "c17-ecdh-521").PublicKey.ECDH(); return k }(), Family: "none"},
+		c17Key{Name: "foreign-ecdh-p256-private", Pub: func() crypto.PublicKey { k, _ := good.ECDH(); return k }(), Family: "none"},
+		c17Key{Name: "foreign-ecdh-x25519-private", Pub: xk, Family: "none"},
 	)
 	return ks
 }
@@ -341,9 +347,10 @@ func TestC17_Matrix(t *testing.T) {
 // Sign / SignDigest / Verify / VerifyDigest equivalence
 
 type c17DigestCase struct {
-	Key    refcose.KeyMat `json:"key"` // Alg may differ from the curve's natural algorithm (cross use is allowed)
-	Msg    rc.Hex         `json:"msg"`
-	Opaque bool           `json:"opaque,omitempty"` // the signer gets the key only as an opaque crypto.Signer (HSM / KMS style)
+	Key     refcose.KeyMat `json:"key"` // Alg may differ from the curve's natural algorithm (cross use is allowed)
+	Msg     rc.Hex         `json:"msg"`
+	NilRand bool           `json:"nil_rand,omitempty"` // (with Opaque) the key has entropy of its own; Sign / SignDigest are handed no reader
+	Opaque  bool           `json:"opaque,omitempty"`   // the signer gets the key only as an opaque crypto.Signer (HSM / KMS style)
 	// Reentrant: while the signer waits for entropy (after it has hashed the message, before the key
 	// operation) the same signer object signs another message: the stand-in for a second goroutine
 	Reentrant bool `json:"reentrant,omitempty"`
@@ -401,9 +408,24 @@ func (o opaqueSigner) Sign(r io.Reader, d []byte, opts crypto.SignerOpts) ([]byt
 	return o.inner.Sign(r, d, opts)
 }
 
+// selfSeededKey is an opaque key that has its own entropy (a token, a KMS): it ignores the reader it is handed,
+// so its callers may pass none at all.
+type selfSeededKey struct {
+	inner crypto.Signer
+	seed  []byte
+}
+
+func (k selfSeededKey) Public() crypto.PublicKey { return k.inner.Public() }
+func (k selfSeededKey) Sign(_ io.Reader, d []byte, opts crypto.SignerOpts) ([]byte, error) {
+	return k.inner.Sign(refcose.NewEntropy(append(append([]byte{}, k.seed...), d...)), d, opts)
+}
+
 func checkC17Digest(c c17DigestCase) error {
 	sg, err := libSigner(c.Key, false)
-	if c.Opaque {
+	if c.Opaque && c.NilRand {
+		sg, err = cose.NewSigner(cose.Algorithm(c.Key.Alg), selfSeededKey{c.Key.Private(), []byte("self-seeded")})
+		stats.Class("digest-equivalence/opaque-key-with-its-own-entropy-and-no-reader")
+	} else if c.Opaque {
 		sg, err = cose.NewSigner(cose.Algorithm(c.Key.Alg), opaqueSigner{c.Key.Private()})
 		stats.Class("digest-equivalence/opaque-crypto-signer")
 		if c.MsgSigner {
@@ -427,7 +449,9 @@ func checkC17Digest(c c17DigestCase) error {
 	digest := refcose.Digest(h, c.Msg)
 	rnd := refcose.NewEntropy(c.Msg)
 	var rnd1, rnd2 io.Reader = rnd, rnd
-	if c.Reentrant {
+	if c.Opaque && c.NilRand {
+		rnd1, rnd2 = nil, nil
+	} else if c.Reentrant {
 		other := append([]byte("another message signed by the same signer object: "), c.Msg...)
 		rnd1 = &hookReader{inner: rnd, hook: func() { sg.Sign(refcose.NewEntropy(other), other) }}
 		rnd2 = &hookReader{inner: rnd, hook: func() { ds.SignDigest(refcose.NewEntropy(other), refcose.Digest(h, other)) }}
@@ -492,7 +516,7 @@ func TestC17_Digest(t *testing.T) {
 		if km.Family() == "ec" && rapid.IntRange(0, 3).Draw(rt, "cross-curve") == 0 {
 			km.Curve = rapid.SampledFrom([]int{256, 384, 521}).Draw(rt, "curve")
 		}
-		c := c17DigestCase{Key: km, Msg: gen.Blob(rt, "msg", gen.BoundaryLen(rt, "msglen", false)), Opaque: rapid.IntRange(0, 2).Draw(rt, "opaque") == 0, Reentrant: rapid.IntRange(0, 2).Draw(rt, "reentrant") == 0}
+		c := c17DigestCase{Key: km, Msg: gen.Blob(rt, "msg", gen.BoundaryLen(rt, "msglen", false)), Opaque: rapid.IntRange(0, 2).Draw(rt, "opaque") == 0, Reentrant: rapid.IntRange(0, 2).Draw(rt, "reentrant") == 0, NilRand: rapid.IntRange(0, 2).Draw(rt, "nil-rand") == 0}
 		if c.Msg == nil {
 			c.Msg = rc.Hex{}
 		}
